@@ -163,6 +163,63 @@ func runDfaTrace(args []string) {
 			}
 		}
 	}
+	// Independent of the cache's own accounting (MemoryUsage is what Insert consults, so an accounting slip is invisible in the
+	// events above): the live heap a cache pins after it has been filled and cleared many times, measured by the runtime.
+	// Bound: 2.5 x capacity + 96 KiB (map/slice growth slack); the unchanged tree stays below 1.75 x on these inputs.
+	verifhook.Install(nil)
+	heapHays := corpus(600, 400, "ababababc")
+	heapMax := 0.0
+	for _, hp := range []struct {
+		pat string
+		cap int
+	}{{`[ab]*a(?:[ab]{1,30}c?){4}d`, 128 << 10}, {`[ab]*a[ab]{12}c`, 64 << 10}, {`(a|b)*a(a|b){10}c(a|b){3}`, 256 << 10}, {`[ab]*a(?:[ab]{1,20}c?){3}d`, 512 << 10}} {
+		re, _ := syntax.Parse(hp.pat, syntax.Perl)
+		n, cerr := nfa.NewDefaultCompiler().CompileRegexp(re)
+		if cerr != nil {
+			continue
+		}
+		cfg := lazy.DefaultConfig()
+		cfg.CacheCapacityBytes = hp.cap
+		cfg.MaxCacheClears = 1 << 20
+		d, err := lazy.CompileWithConfig(n, cfg)
+		if err != nil {
+			continue
+		}
+		heap := func() uint64 {
+			runtime.GC()
+			runtime.GC()
+			var m runtime.MemStats
+			runtime.ReadMemStats(&m)
+			return m.HeapAlloc
+		}
+		h0 := heap()
+		cache := d.NewCache()
+		peak := uint64(0)
+		for i, h := range heapHays {
+			func() {
+				defer func() { recover() }()
+				d.FindAt(cache, h, 0)
+			}()
+			calls++
+			if i%40 == 39 {
+				if h1 := heap(); h1 > h0 && h1-h0 > peak {
+					peak = h1 - h0
+				}
+			}
+		}
+		runtime.KeepAlive(cache)
+		ratio := float64(peak) / float64(hp.cap)
+		if ratio > heapMax {
+			heapMax = ratio
+		}
+		cases++
+		if float64(peak) > 2.5*float64(hp.cap)+96*1024 {
+			rep.Fail(&core.Failure{Prop: "C20", API: "DFACache heap", Mode: "first", Pattern: hp.pat, Hay: "", Cfg: fmt.Sprintf("cap=%d", hp.cap),
+				Want: fmt.Sprintf("live heap pinned by one cache <= 2.5 x capacity + 96 KiB = %d", int(2.5*float64(hp.cap))+96*1024),
+				Got: fmt.Sprintf("%d bytes after filling / clearing (runtime.MemStats.HeapAlloc delta)", peak), Scope: "lazy"})
+		}
+	}
+	rep.Extra["heap_over_capacity_max_ratio"] = heapMax
 	w.Flush()
 	rep.Add(len(dfaPatterns), cases, calls, cases, "")
 	rep.Extra["events"] = events
